@@ -98,7 +98,7 @@ PROPS = {
         'needs_exp': True,
     },
     'C02': {
-        'rules': [rule('G0'), rule('G5'), rule('G6'), rule('G7', drop=LOOKAHEAD), rule('G8'), rule('G1'), rule('G3'), rule('T1'), rule('T2'), rule('G17', keep=['string-literal:']), rule('G18', keep=['escaped-identifier:']), rule('S1', keep=['VERSION', 'DIRECTIVE'])],
+        'rules': [rule('G0'), rule('G5'), rule('G6'), rule('G7', drop=LOOKAHEAD), rule('G8'), rule('G1'), rule('G3'), rule('T1'), rule('T2'), rule('G17', keep=['string-literal:']), rule('G18', keep=['escaped-identifier:']), rule('G12', keep=['lookahead-spans-tokens']), rule('S1', keep=['VERSION', 'DIRECTIVE'])],
         'explanation': 'Necessary conditions for "accepted and classified under their production", anchored in the three stated '
                        'mechanisms. One parser per production, every production addressable: every parser is reachable from an '
                        'entry and every CST struct / enum variant (the repository\'s own copy of Annex A: 936 structs, 1048 '
@@ -350,7 +350,7 @@ PROPS = {
         'needs_mir': True,
     },
     'C06': {
-        'rules': [rule('X4', drop=['strip-']), rule('X1'), rule('G10'), rule('G15'), rule('G17', keep=['string-literal:']), rule('G18'), rule('G22'), rule('W6'), rule('X2'), rule('X3', keep=[':push', ':merge'])],
+        'rules': [rule('X4', drop=['strip-']), rule('X1'), rule('G10'), rule('G15'), rule('G17', keep=['string-literal:']), rule('G18'), rule('G22'), rule('W6'), rule('X2'), rule('X3', keep=[':none-origin', ':push', ':merge'])],
         'explanation': 'Restricted to the directive-free part of the pp type graph (SourceDescription::{Comment, StringLiteral, NotDirective, '
                        'EscapedIdentifier} and their trivia) every leaf is emitted exactly once: each variant has an emitting arm (X4b), an '
                        'arm that pushes its whole node either skips the node, or suppresses exactly the descendants that would emit '
@@ -381,7 +381,7 @@ PROPS = {
         'technique': 'named-parameter threading lint + per-handler emission classes under the flag',
     },
     'C05': {
-        'rules': [rule('X13'), rule('X18'), rule('X19'), rule('G16'), rule('G17', keep=['argument-string:']), rule('G6', keep=MACRO_LEXERS), rule('P3'), rule('X9'), rule('X10'), rule('X4', drop=['strip-', 'double-emission'])],
+        'rules': [rule('X13'), rule('X18'), rule('X19'), rule('G16'), rule('G17', keep=['argument-string:']), rule('G6', keep=MACRO_LEXERS), rule('X14', keep=['define-table-seed']), rule('P3'), rule('X9'), rule('X10'), rule('X4', drop=['strip-', 'double-emission'])],
         'explanation': 'NARROW claim: the structural clauses of macro expansion, the run-splitting of the macro body, the substitution loop with its '
                        'rewrite table and the nesting discipline of the argument lexer are decided; the expanded text as a value is not. '
                        'Misuse is reported by name: DefineNotFound carries the name that was used, DefineArgNotFound the formal that got '
